@@ -167,9 +167,19 @@ def r4_cursor(r, facts):
         pe = ebp.place(s['lhs']) if s['lhs']['p'] else None
         if pe is not None and pe[0] == 'proj' and '@Processing' in pe[2] and pe[2][-1] == '.processed' and s['lhs']['ty'] == 'usize':
             stores.append((loc, ebp.rvalue(s['rv'])))
-    if not r.require(len(stores) == 1, 'poll_sys/cursor-stores', 'expected exactly one advance of `processed` in the processing arm, found %d' % len(stores), f.where()):
+    def is_step(se):
+        e = c15.strip(se)
+        if not (e[0] == 'bin' and e[1].startswith('Add')):
+            return False
+        old = [x for x in (e[2], e[3]) if c15.strip(x)[0] == 'proj' and '@Processing' in c15.strip(x)[2]]
+        return len(old) == 1
+    steps = [(l, e) for l, e in stores if is_step(e)]
+    for l, e in stores:
+        if not is_step(e):
+            r.bad('poll_sys/cursor-jump', 'the cursor `processed` is set to %s: records between the old and the new position are skipped without being decoded (events lost, IN_IGNORED not honoured)' % (e,), f.where(l))
+    if not r.require(len(steps) == 1, 'poll_sys/cursor-stores', 'expected exactly one per-record advance of `processed` in the processing arm, found %d' % len(steps), f.where()):
         return
-    sl, se = stores[0]
+    sl, se = steps[0]
     e = c15.strip(se)
     ok = e[0] == 'bin' and e[1].startswith('Add')
     inc = None
